@@ -138,6 +138,8 @@ template<typename T> struct TdSk: Sk {
     o += " r=" + d2s(c.get_rank(c.get_min_value())) + "," + d2s(c.get_rank(c.get_max_value())) + "," + d2s(c.get_rank((c.get_min_value() + c.get_max_value()) / 2));
     return o;
   }
+  bool continue_is_exact(int v) const override { return !(v == 1 && s->get_total_weight() == 1); }
+  std::string obs_stable() const override { S c(*s); std::string o = "k=" + std::to_string(c.get_k()) + " empty=" + std::to_string(c.is_empty()) + " w=" + std::to_string(c.get_total_weight()); if (!c.is_empty()) o += " min=" + d2s(c.get_min_value()) + " max=" + d2s(c.get_max_value()); return o; }
   int n_variants() const override { return 2; }
   Bytes ser(int v, unsigned h) const override { return to_bytes(s->serialize(h, v == 1)); }
   void ser_os(int v, std::ostream& os) const override { s->serialize(os, v == 1); }
